@@ -593,6 +593,60 @@ def d7_branches_exclusive(chk: Check) -> None:
                    "loop ({} tests)".format(len(sites)))
 
 
+def d8_refusal_only_for_scalars(chk: Check) -> None:
+    """In the hash-of-hashes branch of min / max / unique / distinct a
+    member that is itself a hash but lacks the scanned attribute is simply
+    left out of the comparison.  The "did you mean to evaluate the parent"
+    refusal is for a member that is *not* a hash while the collection has
+    the attribute as a key.  Merging the two tests (`isinstance(val, dict)
+    and NAME in val` ... `elif NAME in data: raise`) refuses a legitimate
+    query as soon as one record lacks the attribute."""
+    prog = chk.prog
+    chk.rule("C13-D8", "in the hash branch of min/max/unique/distinct the "
+             "refusal is reached only for a member that is no hash "
+             "(negated pure `isinstance(member, dict)` on the path)",
+             floor=4)
+    for q in ("KeywordSearches.min", "KeywordSearches.max",
+              "KeywordSearches.unique", "KeywordSearches.distinct"):
+        fi = prog.func(q)
+        found = 0
+        for loop in walk_local(fi.node):
+            if not (isinstance(loop, ast.For) and
+                    isinstance(loop.iter, ast.Call) and
+                    isinstance(loop.iter.func, ast.Attribute) and
+                    loop.iter.func.attr == "items" and
+                    isinstance(loop.target, ast.Tuple)):
+                continue
+            member = src(loop.target.elts[1])
+            for r in walk_local(loop):
+                if not isinstance(r, ast.Raise):
+                    continue
+                found += 1
+                pure = False
+                for f in facts_at(r):
+                    e = f.expr
+                    if f.kind == "cond" and not f.pol and \
+                            isinstance(e, ast.Call) and \
+                            src(e.func) == "isinstance" and \
+                            len(e.args) == 2 and src(e.args[0]) == member \
+                            and ("dict" in src(e.args[1]).lower() or
+                                 "map" in src(e.args[1]).lower()):
+                        pure = True
+                text = "{}: refusal inside the member loop".format(fi.short)
+                if pure:
+                    chk.ok("C13-D8", fi, r, text,
+                           "only when `{}` is no hash".format(member))
+                else:
+                    chk.fail("C13-D8", fi, r, text,
+                             "the refusal can be reached for a member that "
+                             "is a hash (it merely lacks the scanned "
+                             "attribute): the query is refused instead of "
+                             "leaving that member out")
+        if found != 1:
+            raise AnalysisError("{}: {} refusals inside the member loop"
+                                .format(fi.short, found))
+
+
 def run(chk: Check) -> None:
     d1_routing(chk)
     d2_extremes(chk)
@@ -601,3 +655,4 @@ def run(chk: Check) -> None:
     d5_params(chk)
     d6_partition(chk)
     d7_branches_exclusive(chk)
+    d8_refusal_only_for_scalars(chk)
